@@ -1,6 +1,8 @@
 package main
 
 import (
+	"math/bits"
+	"fmt"
 	"bytes"
 	"encoding/json"
 	"log/slog"
@@ -236,6 +238,33 @@ func c04(args []string) {
 		for _, p := range gen.TwinMSMs(rng, gen.MSMTypes[k%14]) {
 			if len(p) <= 1023 {
 				c04Decode(w, tr.Frame(p), []string{"decoder", "handler"}[k%2], "twin/mixed", 0, slog.LevelInfo)
+			}
+		}
+	}
+	// exact fits: messages whose last field ends exactly at the end of the last byte (no padding bits, no padding bytes),
+	// with 0, 1, 2 and 3 signal cells, multiple-message flag clear and set - the place where a "<" that should be "<="
+	// (or the reverse) in a length test shows
+	for _, typ := range []int{1074, 1077, 1084, 1097, 1124, 1127} {
+		satBits, cellBits := 18, 48
+		if gen.IsMSM7(typ) {
+			satBits, cellBits = 36, 80
+		}
+		for want := 0; want <= 3; want++ {
+			for _, mm := range []uint64{0, 1} {
+				if want == 0 && mm == 1 {
+					continue
+				}
+				for try := 0; try < 4000; try++ {
+					spec := gen.RandomMSM(rng, typ, []int{6, 4, 1, 5}[try%4], -1, mm, 0)
+					nsat, ncell := bits.OnesCount64(spec.SatMask), len(spec.Cell)
+					nsig := bits.OnesCount32(spec.SigMask)
+					if ncell != want || (169+nsat*nsig+nsat*satBits+ncell*cellBits)%8 != 0 {
+						continue
+					}
+					p := spec.Encode()
+					c04Decode(w, tr.Frame(p), []string{"decoder", "handler"}[try%2], fmt.Sprintf("exact fit, %d cells, flag %d", want, mm), 0, []slog.Level{slog.LevelInfo, slog.LevelDebug}[want%2])
+					break
+				}
 			}
 		}
 	}
